@@ -61,7 +61,9 @@ func (s *asyncSubjectImpl[T]) Subscribe(destination Observer[T]) Subscription {
 func (s *asyncSubjectImpl[T]) SubscribeWithContext(subscriberCtx context.Context, destination Observer[T]) Subscription {
 	subscription := NewSubscriber(destination)
 
+	verifPoint("subject_async:SubscribeWithContext:lock#0", s)
 	s.mu.Lock()
+	defer verifPoint("subject_async:SubscribeWithContext:ret#0", s)
 	defer s.mu.Unlock()
 
 	switch s.status {
@@ -104,6 +106,7 @@ func (s *asyncSubjectImpl[T]) Next(value T) {
 
 // Implements Observer.
 func (s *asyncSubjectImpl[T]) NextWithContext(ctx context.Context, value T) {
+	verifPoint("subject_async:NextWithContext:lock#0", s)
 	s.mu.Lock()
 
 	if s.status == KindNext {
@@ -114,6 +117,7 @@ func (s *asyncSubjectImpl[T]) NextWithContext(ctx context.Context, value T) {
 	}
 
 	s.mu.Unlock()
+	verifPoint("subject_async:NextWithContext:unlocked#0", s)
 }
 
 // Implements Observer.
@@ -123,6 +127,7 @@ func (s *asyncSubjectImpl[T]) Error(err error) {
 
 // Implements Observer.
 func (s *asyncSubjectImpl[T]) ErrorWithContext(ctx context.Context, err error) {
+	verifPoint("subject_async:ErrorWithContext:lock#0", s)
 	s.mu.Lock()
 
 	if s.status == KindNext {
@@ -134,6 +139,7 @@ func (s *asyncSubjectImpl[T]) ErrorWithContext(ctx context.Context, err error) {
 	}
 
 	s.mu.Unlock()
+	verifPoint("subject_async:ErrorWithContext:unlocked#0", s)
 	s.unsubscribeAll()
 }
 
@@ -144,6 +150,7 @@ func (s *asyncSubjectImpl[T]) Complete() {
 
 // Implements Observer.
 func (s *asyncSubjectImpl[T]) CompleteWithContext(ctx context.Context) {
+	verifPoint("subject_async:CompleteWithContext:lock#0", s)
 	s.mu.Lock()
 
 	if s.status == KindNext {
@@ -158,6 +165,7 @@ func (s *asyncSubjectImpl[T]) CompleteWithContext(ctx context.Context) {
 	}
 
 	s.mu.Unlock()
+	verifPoint("subject_async:CompleteWithContext:unlocked#0", s)
 	s.unsubscribeAll()
 }
 
@@ -185,7 +193,9 @@ func (s *asyncSubjectImpl[T]) CountObservers() int {
 
 // Implements Observer.
 func (s *asyncSubjectImpl[T]) IsClosed() bool {
+	verifPoint("subject_async:IsClosed:lock#0", s)
 	s.mu.Lock()
+	defer verifPoint("subject_async:IsClosed:ret#0", s)
 	defer s.mu.Unlock()
 
 	return s.status != KindNext
@@ -193,7 +203,9 @@ func (s *asyncSubjectImpl[T]) IsClosed() bool {
 
 // Implements Observer.
 func (s *asyncSubjectImpl[T]) HasThrown() bool {
+	verifPoint("subject_async:HasThrown:lock#0", s)
 	s.mu.Lock()
+	defer verifPoint("subject_async:HasThrown:ret#0", s)
 	defer s.mu.Unlock()
 
 	return s.status == KindError
@@ -201,7 +213,9 @@ func (s *asyncSubjectImpl[T]) HasThrown() bool {
 
 // Implements Observer.
 func (s *asyncSubjectImpl[T]) IsCompleted() bool {
+	verifPoint("subject_async:IsCompleted:lock#0", s)
 	s.mu.Lock()
+	defer verifPoint("subject_async:IsCompleted:ret#0", s)
 	defer s.mu.Unlock()
 
 	return s.status == KindComplete
